@@ -170,7 +170,16 @@ impl Tokenizer for VaporettoTokenizer {
 
         // pre filter
         let prefiltered_text = self.prefilter.filter(text);
-        let mut s = Sentence::from_raw(prefiltered_text).unwrap();
+        let Ok(mut s) = Sentence::from_raw(prefiltered_text) else {
+            // The text cannot be segmented (it contains a NUL character): emit it as one token.
+            return VaporettoTokenStream {
+                text,
+                boundary_pos: vec![text.len()],
+                token: Token::default(),
+                offset_to: 0,
+                position: 0,
+            };
+        };
 
         // tokenize
         self.predictor.predict(&mut s);
